@@ -216,6 +216,45 @@ theorem header_noncanonical_windows (k : RecordKind) (b : Nat) :
     fromRecord [0x91, serTag k, b] = some k := by
   cases k <;> simp [fromRecord, headerWindow, headerSize, headerFromWindow, tagKind, deTagBound, deTag, serTag]
 
+/-- **is_chunk_spec**: `RecordHeader::is_record_of_type_chunk` errs exactly when the header decoder errs, is `true`
+exactly for the chunk kind, and any `Ok(b)` is the kind test of an accepted header — arbitrary, truncated or
+unknown-kind bytes are an error, never "not a chunk". -/
+theorem is_chunk_spec (bs : List Nat) :
+    (isChunk bs = none ↔ fromRecord bs = none) ∧
+    (isChunk bs = some true ↔ fromRecord bs = some .Chunk) ∧
+    (∀ b, isChunk bs = some b → ∃ k, fromRecord bs = some k ∧ b = (k == .Chunk)) :=
+  SafeNet.Wire.is_chunk_spec bs
+
+theorem is_chunk_unknown_or_short_errs :
+    (∀ tag b rest, 8 ≤ tag → tag < 128 → isChunk (0x91 :: tag :: b :: rest) = none) ∧
+    (∀ bs : List Nat, bs.length < headerSize + 1 → isChunk bs = none) :=
+  ⟨fun tag b rest h8 h128 => ((is_chunk_spec _).1).mpr (decode_total.2.1 tag b rest h8 h128),
+   fun bs h => ((is_chunk_spec _).1).mpr (decode_total.1 bs h)⟩
+
+/-- `from_record` is `try_deserialize` on the first `SIZE + 1` bytes: the window model used everywhere above is the
+general slice decoder (tag in any integer width, 1-arrays and 1-bins in every length width) cut to three bytes. -/
+theorem from_record_is_try_deserialize_window (bs : List Nat) :
+    fromRecord bs = if bs.length < headerWindow then none else
+      match bs.take headerWindow with
+      | [b0, b1, b2] => headerTryDeserialize [b0, b1, b2]
+      | _ => none := by
+  unfold fromRecord
+  split
+  · rfl
+  · split
+    · rename_i h; rw [h, tryDeserialize_window]
+    · rename_i hne
+      match hm : bs.take headerWindow with
+      | [b0, b1, b2] => exact absurd hm (hne b0 b1 b2)
+      | [] | [_] | [_, _] | _ :: _ :: _ :: _ :: _ => simp [headerFromWindow]
+
+/-- the slice decoder reads the tag in ANY unsigned width (and the signed widths normalise to it): the canonical
+1-array followed by whichever spelling of `n` the encoder table would choose for a 64-bit value -/
+theorem try_deserialize_any_width (n : Nat) (hn : n < 18446744073709551616) (rest : List Nat) :
+    headerTryDeserialize (0x91 :: (encodeHead (.uint n) ++ rest)) = tagKind n := by
+  simp only [headerTryDeserialize]
+  rw [decodeHead_encodeHead (.uint n) rest (by simpa [wfHead] using hn)]
+
 /-- **wire_stable**: for EVERY payload the record starts with exactly `[0x91, tag kind]` (the regenerated table)
 and continues with the payload's own encoding; with `tag_values` the first two bytes of every record are fixed. -/
 theorem wire_stable (k : RecordKind) (v : Val) :
@@ -238,6 +277,13 @@ theorem wire_prefixes (v : Val) :
    (wire_stable _ v).1, (wire_stable _ v).1, (wire_stable _ v).1⟩
 
 /-! ## non-vacuity -/
+
+example : isChunk [0x91, 1, 0xc4] = some true := by decide
+example : isChunk [0x91, 5, 0xc4] = some false := by decide
+example : isChunk [0x91, 8, 0xc4] = none := by decide
+example : headerTryDeserialize [0x91, 0xcf, 0, 0, 0, 0, 0, 0, 0, 5] = some .Scratchpad := by decide
+example : headerTryDeserialize [0xdc, 0, 1, 0xd1, 0, 7, 9] = some .TransactionWithPayment := by decide
+example : headerTryDeserialize [0x91, 0xd0, 0xff] = none := by decide
 
 example : decode ((encode (.arr [.uint 300, .str [104, 105]])).take 5) = none := by decide
 example : decode [0x92, 0xcd, 0, 7, 0xd9, 1, 65, 9] = some (.arr [.uint 7, .str [65]], [9]) := rfl
@@ -276,5 +322,9 @@ end SafeNet.Props.C12
 #print axioms SafeNet.Props.C12.decode_wf
 #print axioms SafeNet.Props.C12.decode_normalises
 #print axioms SafeNet.Props.C12.header_noncanonical_windows
+#print axioms SafeNet.Props.C12.is_chunk_spec
+#print axioms SafeNet.Props.C12.is_chunk_unknown_or_short_errs
+#print axioms SafeNet.Props.C12.from_record_is_try_deserialize_window
+#print axioms SafeNet.Props.C12.try_deserialize_any_width
 #print axioms SafeNet.Props.C12.wire_stable
 #print axioms SafeNet.Props.C12.wire_prefixes
